@@ -93,7 +93,7 @@ PROPS["C09"] = dict(
     rule="random object trees (depth <= 2; 11 kinds: Point, SimplePoint, Rect, LineString, Polygon, Feature, 5 collection kinds, with 0-4 or 60-70 children, empty children) whose leaves are constructed in contact with a common valid polygon; all ordered pairs; 4 geometry-index x 4 child-index configurations; per pair: 6 predicate answers + 8 algebraic-law flags (within=contains swapped, intersects symmetric, contains=>intersects, contains=>rect covers, intersects=>rects meet, self containment, Feature transparency, SimplePoint/Rect representation transparency) compared with the Coq model; answers compared with the composed point-set oracle when no polygon leaf is in boundary contact (where the C03 findings live). non-trivial: all; distinct = distinct case lines",
     trusted_base=OBJ_TB + ["executable oracle PairSpec.meets_x / covers_x at the leaves (completeness not proved)"],
     assumptions=["float64 exact on D", "Circle is outside this model (real-valued model, C13)"],
-    partial=["contains => A's rectangle covers B's is proved (CoversBoxes.v), hence also rectangles meet; intersects symmetry is proved at the Geometry interface and at the object level (through Features, collections, nesting: ObjSym.o_intersects_sym) for everything except a polygon with holes facing a polygon with holes, and a Rect used as a ring is proved to be the ring of its five corners (RR_as_RS); a non-empty object without polygon holes intersects itself (ObjSelf.o_intersects_self) and contains => intersects holds for Point and Rect receivers (ObjLaws.g_contains_intersects); contains => intersects for Line / Polygon receivers, self containment, symmetry for hole pairs and Circles, and rect-as-polygon for the Rect-specific fast paths are law flags"],
+    partial=["contains => A's rectangle covers B's is proved (CoversBoxes.v), hence also rectangles meet; intersects symmetry is proved at the Geometry interface and at the object level (through Features, collections, nesting: ObjSym.o_intersects_sym) for everything except a polygon with holes facing a polygon with holes, and a Rect used as a ring is proved to be the ring of its five corners (RR_as_RS); a non-empty object without polygon holes intersects itself (ObjSelf.o_intersects_self); contains => intersects is proved at the Geometry interface for Point, Rect and Line receivers (all argument kinds) and for Polygon receivers with holes when the argument has fewer than 16 points (ObjLaws.v, ObjLaws2.v), and lifted to object trees (ObjLaws3.o_contains_intersects: polygons in the argument without holes); a non-empty object contains itself when no vertex of a polygon ring lies in the interior of an edge of the same ring, holes allowed, through Features / collections / nesting (ObjSelf2.v, ObjSelf3.o_contains_self); contains => intersects for arguments of 16 points and more or with holes (it leans on the bounding-box shortcut of ringContainsRing with boundary contact), symmetry for hole pairs and Circles, and rect-as-polygon for the Rect-specific fast paths are law flags"],
 )
 PROPS["C10"] = dict(
     translated_functions=['unionRects', 'Rect.IntersectsRect'],
@@ -106,9 +106,9 @@ PROPS["C10"] = dict(
 PROPS["C11"] = dict(
     translated_functions=['unionRects'],
     streams=["C11"], kernel_cases=300, timeout=1500,
-    rule="random object trees of 11 kinds with coordinates on, just inside and just outside the +-180/+-90 limits and small lattice coordinates, 0-6 positions per line, rings with 0-8 positions closed or not, empties mixed with non-empties, single-child collections; outputs Empty, Valid, Rect, 2*Center, NumPoints compared with the model and with the direct specification (tight box over all occupied positions, every position in range). non-trivial: all; distinct = distinct case lines",
+    rule="random object trees of 11 kinds with coordinates on, just inside and just outside the +-180/+-90 limits and small lattice coordinates, 0-6 positions per line, rings with 0-8 positions closed or not, empties mixed with non-empties, single-child collections; outputs Empty, Valid, Rect, 2*Center, NumPoints compared with the model and with the direct specification (tight box over all occupied positions, every position in range); plus an implementation-only stream (tag 63) of Point / LineString / Polygon / MultiPoint / Feature-of-collection objects with arbitrary finite float64 coordinates (decimals, +-0, denormals, magnitudes up to MaxFloat64): Rect = exact min/max, Center = the exact rational midpoint rounded once (math/big), Valid, Empty. non-trivial: all; distinct = distinct case lines",
     trusted_base=OBJ_TB,
-    assumptions=["coordinates are grid values k*2^-s: negative zero and non-dyadic floats are not generated (min/max/compare are exact on any finite float; only (min+max)/2 rounds)"],
+    assumptions=["the model's coordinates are grid values k*2^-s; non-dyadic, signed-zero, denormal and huge floats are covered by the implementation-only stream (tag 63), where only (min+max)/2 rounds: its expected value is computed exactly"],
     partial=[],
 )
 
